@@ -83,7 +83,7 @@ package controller
 //@   modifies f.fan.(*fans.FileFan).Rpm, f.fan.(*fans.FileFan).Pwm, f.fan.(*fans.CmdFan).Rpm, f.fan.(*fans.CmdFan).Pwm
 //@   modifies f.controlLoop.(*control_loop.DirectControlLoop).lastTime
 //@   modifies each(*curves.LinearSpeedCurve).Value, each(*curves.FunctionSpeedCurve).Value, each(*curves.PidSpeedCurve).Value, lastAvgRead, lastValue, lastInterp, segLo, segHi, memberVals, memberCount
-//@   modifies each(*util.PidLoop).integral, each(*util.PidLoop).error, each(*util.PidLoop).lastTime, procWorld, started, lastReadFailed, supportsResult
+//@   modifies each(*util.PidLoop).integral, each(*util.PidLoop).error, each(*util.PidLoop).lastTime, lastPidOut, procWorld, started, lastReadFailed, supportsResult
 
 //@ func trySetManualPwm
 //@   props C05
@@ -108,7 +108,7 @@ package controller
 //@   modifies f.fan.(*fans.FileFan).Rpm, f.fan.(*fans.FileFan).Pwm, f.fan.(*fans.CmdFan).Rpm, f.fan.(*fans.CmdFan).Pwm
 //@   modifies f.controlLoop.(*control_loop.DirectControlLoop).lastTime
 //@   modifies each(*curves.LinearSpeedCurve).Value, each(*curves.FunctionSpeedCurve).Value, each(*curves.PidSpeedCurve).Value, lastAvgRead, lastValue, lastInterp, segLo, segHi, memberVals, memberCount
-//@   modifies each(*util.PidLoop).integral, each(*util.PidLoop).error, each(*util.PidLoop).lastTime, procWorld, started, lastReadFailed, supportsResult
+//@   modifies each(*util.PidLoop).integral, each(*util.PidLoop).error, each(*util.PidLoop).lastTime, lastPidOut, procWorld, started, lastReadFailed, supportsResult
 
 // ---- RPM monitor step and stall handling (C10) ---------------------------------------------------------
 //@ func (*DefaultFanController).measureRpm
